@@ -173,7 +173,7 @@ theorem dok_setLoop (cfg : Cfg) (c o : Bool) (items : List Item) :
   | nil => intro i hi; exact hi
   | cons it rest ih => intro i hi; simp only [Model.setLoop]; exact ih _ (dok_setOne cfg c o i it hi)
 
-theorem dok_shiftLoop (keys : List Key) : ∀ i, DOK i → DOK (Model.shiftLoop i keys).1 := by
+theorem dok_shiftLoop (ar : Arith) (keys : List Key) : ∀ i, DOK i → DOK (Model.shiftLoop ar i keys).1 := by
   induction keys with
   | nil => intro i hi; exact hi
   | cons k rest ih =>
@@ -328,7 +328,7 @@ theorem sok_step (cfg : Cfg) (ar : Arith) (now : Int) (s : State) (req : Req) (h
     | getByKeys keys => simp only [Model.stepCore]; split; exact hs; exact sok_withLive s _ hs hsum
     | shift keys =>
       simp only [Model.stepCore]; split; exact hs
-      exact sok_settleDelete s _ hs (dok_shiftLoop keys _ hsum)
+      exact sok_settleDelete s _ hs (dok_shiftLoop ar keys _ hsum)
     | del keys =>
       simp only [Model.stepCore]; split; exact hs
       split
@@ -348,7 +348,7 @@ theorem sok_step (cfg : Cfg) (ar : Arith) (now : Int) (s : State) (req : Req) (h
       simp only [Model.stepCore, Model.incStep]
       split
       · exact hs
-      · exact sok_settleTouch cfg s _ hs (dok_incCore cfg ar now _ ty k b c i1 i2 hsum)
+      · exact sok_settleTouch cfg s _ hs (dok_incCore cfg _ now _ ty k b c i1 i2 hsum)
     | push pairs =>
       simp only [Model.stepCore]
       exact sok_settleTouch cfg s _ hs (dok_pushLoop cfg pairs _ hsum)
